@@ -115,7 +115,7 @@ def _names(a, b, c, l, j, probe, swallow=False):
     return {'a': a, 'b': b, 'c': c, 'l': list(l), 'h': h, 't': probe, 'one': 1, 'zero': 0}
 
 
-def api_budget(n: int, a: int, b: int, c: bool, l: List[int], j: int) -> None:
+def api_budget(n: int, a: int, b: int, c: bool, l: List[int], j: int, again: bool = False) -> None:
     """
     pre: n >= 1 and len(l) <= 5 and 0 <= j <= 5 and 0 <= a <= 6
     post: True
@@ -123,6 +123,9 @@ def api_budget(n: int, a: int, b: int, c: bool, l: List[int], j: int) -> None:
     hlib.enter(locals())
     hlib.assume(hlib.deep() or (len(l) <= 3 and j <= 3 and a <= 3))
     text = hlib.PARAM["text"]
+    # the same parsed program may have been evaluated before (a host with a parse cache re-uses the tree):
+    # the measured run is then the SECOND evaluation of the very same tree
+    run_eval(text, _names(a, b, c, l, j, Probe()), 10**6 if again else 1)
     api_reset()
     out = run_eval(text, _names(a, b, c, l, j, Probe()), n)
     started = api_count()      # independent count of node evaluations started by this run
@@ -289,4 +292,54 @@ def api_reentrant(n: int, a: int, b: int, l: List[int], inner_budget: int, inner
         assert own == n, "outer eval: ops-limit raised at an operation other than its own N-th (re-entrant eval from a host callback)"
     elif out is None:
         assert own < n, "outer eval returned although it started N or more operations of its own (re-entrant eval from a host callback)"
+    hlib.done()
+
+
+# ---- host-visible effects per operation -------------------------------------------------------------------------------
+# every evaluation of a lambda body is an operation: a body that reads one item of a host object cannot be evaluated
+# N or more times under budget N, whatever the shape of the body and whoever drives it
+_ACCESS = []
+
+
+class RecRow(dict):
+    def __getitem__(self, k):
+        _ACCESS.append(k)
+        return dict.__getitem__(self, k)
+
+
+class RecList(list):
+    def __getitem__(self, k):
+        _ACCESS.append(k)
+        return list.__getitem__(self, k)
+
+
+EFFECTS = ["rows | map(r => r['a']) | len", "rows | filter(r => r['a']) | len", "sorted(rows, r => r['a']) | len",
+           "rows | map(r => r['a'] + zero) | len", "pairs | map(p => p[0]) | len", "pairs | filter(p => p[1]) | len",
+           "each(r => r['a'])", "each(r => r[key])", "rows | map(r => r[key]) | len", "rows | reduce((x, y) => y)['a']",
+           "f = r => r['a']\nrows | map(f) | len", "rows | map(r => (q => q['a'])(r)) | len", "each(r => [r['a']])"]
+BUDGETS = [1, 2, 3, 5, 8, 13, 21, 34, 55, 100, 149, 150, 151, 300]
+
+
+def effects_bounded(ni: int, again: bool) -> None:
+    """
+    pre: 0 <= ni < 14
+    post: True
+    """
+    hlib.enter(locals())
+    text = EFFECTS[hlib.PARAM["t"]]
+    n = BUDGETS[hlib.concrete(ni, 0, 13)]
+    again = True if again else False
+    with hlib.native():
+        rows = [RecRow(a=i + 1, b=0) for i in range(150)]
+        pairs = [RecList([i + 1, i]) for i in range(150)]
+
+        def each(f):
+            return len([f(r) for r in rows])
+        names = {'rows': rows, 'pairs': pairs, 'each': each, 'zero': 0, 'key': 'a'}
+        if again:
+            run_eval(text, dict(names), 10**6)          # the same tree has been evaluated before
+        del _ACCESS[:]
+        out = run_eval(text, names, n)
+        k = len(_ACCESS)
+    assert k < n, "%r under budget %d: %d lambda-body evaluations reached host data (each is at least one operation)" % (text, n, k)
     hlib.done()
